@@ -24,6 +24,7 @@ type c13Op struct {
 	V    int    `json:"v,omitempty"`    // held node-set bound to $v (-1: none)
 	W    int    `json:"w,omitempty"`    // held node-set bound to $w (-1: none; may equal V: the same slice twice)
 	Hold bool   `json:"hold,omitempty"` // keep the result (if a node-set) as a caller-held slice
+	Alt  bool   `json:"alt,omitempty"`  // use the second namespace map (x and y swapped)
 	Idx  int    `json:"idx,omitempty"`  // reexec: index of the earlier exec op; subslice/unmarshal: held index
 	I    int    `json:"i,omitempty"`
 	J    int    `json:"j,omitempty"`
@@ -84,6 +85,7 @@ func snapshotResult(r xsel.Result) string {
 type execRecord struct {
 	expr   int
 	node   string
+	alt    bool
 	v, w   int
 	result string
 	err    bool
@@ -107,7 +109,9 @@ func checkC13(c *c13Case) error {
 	var held []heldSet
 	// caller-owned binding maps, installed into every query
 	nsMap := map[string]string{"x": "urn:x", "y": "urn:y"}
-	vars := map[xsel.XmlName]xsel.Result{{Local: "n"}: xsel.Number(2), {Local: "s"}: xsel.String("a")}
+	nsAlt := map[string]string{"x": "urn:y", "y": "urn:x"} // the same prefixes bound the other way round
+	vars := map[xsel.XmlName]xsel.Result{{Local: "n"}: xsel.Number(2), {Local: "s"}: xsel.String("a"),
+		{Space: "urn:x", Local: "n"}: xsel.Number(10), {Space: "urn:y", Local: "n"}: xsel.Number(20)}
 	funcs := map[xsel.XmlName]xsel.Function{}
 	records := map[int]execRecord{}
 	checkInvariants := func(step int, what string) error {
@@ -129,7 +133,7 @@ func checkC13(c *c13Case) error {
 				}
 			}
 		}
-		if len(nsMap) != 2 || nsMap["x"] != "urn:x" || nsMap["y"] != "urn:y" {
+		if len(nsMap) != 2 || nsMap["x"] != "urn:x" || nsMap["y"] != "urn:y" || len(nsAlt) != 2 || nsAlt["x"] != "urn:y" || nsAlt["y"] != "urn:x" {
 			return fmt.Errorf("step %d (%s): the caller's namespace map changed: %v", step, what, nsMap)
 		}
 		if len(funcs) != 0 {
@@ -155,6 +159,9 @@ func checkC13(c *c13Case) error {
 		before := len(callVars)
 		apply := func(cs *xsel.ContextSettings) {
 			cs.NamespaceDecls = nsMap
+			if op.Alt {
+				cs.NamespaceDecls = nsAlt
+			}
 			cs.Variables = callVars
 			cs.FunctionLibrary = funcs
 		}
@@ -193,7 +200,18 @@ func checkC13(c *c13Case) error {
 				return fmt.Errorf("step %d (%s): %s", step, what, snap)
 			}
 			st.Eval(1)
-			records[step] = execRecord{op.Expr, op.Node, op.V, op.W, snap, isErr}
+			records[step] = execRecord{op.Expr, op.Node, op.Alt, op.V, op.W, snap, isErr}
+			// a variable evaluates to the value bound under the query's OWN bindings,
+			// whatever bindings earlier queries used
+			if c.Exprs[op.Expr] == "$x:n" || c.Exprs[op.Expr] == "$y:n" {
+				want := 10.0
+				if (c.Exprs[op.Expr] == "$y:n") != op.Alt {
+					want = 20
+				}
+				if n, ok := r.(xsel.Number); !ok || float64(n) != want {
+					return fmt.Errorf("step %d (%s, alternate bindings %v): got %s, the variable bound under this query's namespace bindings is %v", step, what, op.Alt, snap, want)
+				}
+			}
 			if ns, ok := r.(xsel.NodeSet); ok && op.Hold {
 				held = append(held, heldSet{ns, append([]store.Cursor{}, ns[:cap(ns)]...)})
 			}
@@ -206,7 +224,7 @@ func checkC13(c *c13Case) error {
 				continue
 			}
 			what = fmt.Sprintf("re-exec of step %d: %q from %s", op.Idx, c.Exprs[rec.expr], rec.node)
-			snap, _, _ := doExec(c13Op{Expr: rec.expr, Node: rec.node, V: rec.v, W: rec.w}, exprs[rec.expr])
+			snap, _, _ := doExec(c13Op{Expr: rec.expr, Node: rec.node, Alt: rec.alt, V: rec.v, W: rec.w}, exprs[rec.expr])
 			st.Eval(1)
 			reexecs++
 			if snap != rec.result {
@@ -264,7 +282,7 @@ func checkC13(c *c13Case) error {
 		if err != nil {
 			return fmt.Errorf("BuildExpr(%q) failed on a repeat: %v", c.Exprs[rec.expr], err)
 		}
-		snap, _, _ := doExec(c13Op{Expr: rec.expr, Node: rec.node, V: rec.v, W: rec.w}, &g)
+		snap, _, _ := doExec(c13Op{Expr: rec.expr, Node: rec.node, Alt: rec.alt, V: rec.v, W: rec.w}, &g)
 		st.Eval(1)
 		if snap != rec.result {
 			return fmt.Errorf("a freshly built %q from %s gave a different result than the reused expression at step %d", c.Exprs[rec.expr], rec.node, step)
@@ -291,7 +309,8 @@ func TestC13(t *testing.T) {
 		elems, attrs, _ := docNames(doc)
 		g := &xast.G{T: t, Env: xast.GenEnv{ElemNames: queryable(elems), AttrNames: queryable(attrs), Prefixes: []string{"x", "y"}, NumVars: []string{"n"}, StrVars: []string{"s"}, NodeVars: []string{"v", "w"}, NoLang: true}}
 		c := &c13Case{Events: ev}
-		fixed := []string{"$v | //a", "//a | $v", "$v | $v", "$v | $w", "$v | /nope", "($v | $w)[1]", "$v/..", "$v[1]", "$v[last()]", "count($v | //b)", "//node()", "//*/ancestor::*", "//@*/..", "$w//text()", "$v/ancestor::*/@*"}
+		fixed := []string{"$v | //a", "//a | $v", "$v | $v", "$v | $w", "$v | /nope", "($v | $w)[1]", "$v/..", "$v[1]", "$v[last()]", "count($v | //b)", "//node()", "//*/ancestor::*", "//@*/..", "$w//text()", "$v/ancestor::*/@*",
+			"$v/self::a", "$v/self::*", "$w/self::b", "count($v/self::b)", "$v/self::node()[1]", "$x:n", "$x:n + count(//x:a)", "//x:*", "$y:n"}
 		for i, n := 0, rapid.IntRange(3, 6).Draw(t, "nExprs"); i < n; i++ {
 			if rapid.Bool().Draw(t, "fixedExpr") {
 				c.Exprs = append(c.Exprs, fixed[rapid.IntRange(0, len(fixed)-1).Draw(t, "fixed")])
@@ -304,7 +323,7 @@ func TestC13(t *testing.T) {
 		for i, n := 0, rapid.IntRange(4, 25).Draw(t, "nOps"); i < n; i++ {
 			switch k := rapid.IntRange(0, 9).Draw(t, "op"); {
 			case k <= 4 || nHeld == 0:
-				op := c13Op{Op: "exec", Expr: rapid.IntRange(0, len(c.Exprs)-1).Draw(t, "expr"), V: -1, W: -1, Hold: rapid.Bool().Draw(t, "hold")}
+				op := c13Op{Op: "exec", Expr: rapid.IntRange(0, len(c.Exprs)-1).Draw(t, "expr"), V: -1, W: -1, Hold: rapid.Bool().Draw(t, "hold"), Alt: rapid.IntRange(0, 2).Draw(t, "altBindings") == 0}
 				op.Node = doc.All[rapid.IntRange(0, len(doc.All)-1).Draw(t, "node")].Ref()
 				if rapid.Bool().Draw(t, "fromRoot") {
 					op.Node = "/"
